@@ -44,14 +44,15 @@ def units(bins, tier, seed):
     for i in range(nf):
         us.append(fuzz_unit("c04_fuzz.f%d" % i, bins["c04_fuzz"], ID, seed * 1000 + i, runs, max_len=700 if tier == "quick" else 2048,
                             seeds=[CORPUS], dict_file=DICT, group="fuzz", timeout=5400, len_control=20,
-                            env={"C04_EXCLUDE_KNOWN": 1},
+                            env={"C04_EXCLUDE_KNOWN": 0},   # both findings are fixed in /repo: the classes are searched again
                             # libFuzzer's per-input watchdog is wall clock; on a heavily shared machine a descheduled process trips the default
                             # 120 s although no input takes more than a millisecond.  Time is never an oracle here: Unit.timeout is the safety net.
                             extra=["-timeout=1500"]))
     for i in range(nr):
-        env = {"RC_PARAMS": rc_params(seed * 1000 + 100 + i, cases, 200), "C04_EXCLUDE_KNOWN": 1}
+        env = {"RC_PARAMS": rc_params(seed * 1000 + 100 + i, cases, 200), "C04_EXCLUDE_KNOWN": 0}
         if i == 0:
             env["C04_FIXED"] = 1
+            env["VERIF_REGRESS"] = 1     # replays/C04/reg-*.case (the two repaired findings) must pass
         us.append(Unit("c04_rc.g%d" % i, [bins["c04_rc"]], env=env, group="grammar", timeout=5400))
     return us
 
@@ -72,6 +73,8 @@ def replay(path):
 X = "src/xss.cpp"
 # sensitivity mutations (tools/sens.py -w 5 C04): the four from DESIGN.md section 3/C04 (S i-iv) and own ones; each must be caught by the quick tier
 MUTATIONS = [
+    dict(name="absolute-uri-accepts-relative-regression", edits=[("src/xss.cpp", "\t\t\t\tif(!parser.has_scheme())\n\t\t\t\t\treturn false;\n", "")]),
+    dict(name="low-surrogate-reference-regression", edits=[("src/xss.cpp", "|| (0xD800 <= code_point  && code_point<= 0xDFFF)", "|| (0xD800 <= code_point  && code_point<= 0xDBFF)")]),
     # S(i) xhtml nesting: the opening tag of a mismatched pair stays valid
     dict(name="nesting-keeps-open-tag-of-mismatched-pair", edits=[(X, "\t\t\t\t\t\t\tcur.type = invalid_data;\n\t\t\t\t\t\t\tparsed[top_index].type = invalid_data;\n",
                                                                 "\t\t\t\t\t\t\tcur.type = invalid_data;\n")]),
